@@ -112,7 +112,7 @@ Proof.
   - intros st s H. exact (ru_cur _ _ _ H).
   - apply unchunked_R_call; assumption.
   - unfold PyInv. cbn. split; [reflexivity|]. split; [|split; [reflexivity|lia]].
-    constructor; cbn; try discriminate; [apply InvU_init|reflexivity|intros a []].
+    constructor; cbn; try discriminate; [apply InvU_init|reflexivity|intros a []|exact I].
   - exact Hops.
 Qed.
 
